@@ -470,7 +470,7 @@ class JSONPointer:
 
 
 RE_RELATIVE_POINTER = re.compile(
-    r"(?P<ORIGIN>\d+)(?P<INDEX_G>(?P<SIGN>[+\-])(?P<INDEX>\d))?(?P<POINTER>.*)",
+    r"(?P<ORIGIN>[0-9]+)(?P<INDEX_G>(?P<SIGN>[+\-])(?P<INDEX>[0-9]+))?(?P<POINTER>.*)",
     re.DOTALL,
 )
 
@@ -612,6 +612,10 @@ class RelativeJSONPointer:
             parts.extend(self.pointer.parts)
         else:
             assert self.pointer == "#"
+            if not parts:
+                raise RelativeJSONPointerIndexError(
+                    "the root of a document has no key or index"
+                )
             parts[-1] = f"#{parts[-1]}"
 
         return JSONPointer.from_parts(
